@@ -59,6 +59,25 @@ without call-back}: after initialize() the sampler is at v, the runs warmup(k);s
 call-back log, stream), after reinitialize() the sampler is at v again.  HybridGibbs: before its first transition the sampler
 is at the initial points its block samplers were constructed with.
 
+*Call-back alphabet* (callback cells): EVERY class of either interface that takes a call-back x kind of callable in
+{plain function, lambda, bound method, functools.partial, callable object, callable object with __len__ == 0 before its first
+call, callable object with __bool__ False before its first call} x route {constructor argument, assigned} (x {sample(3,1),
+sample_adapt(10,2)} in the stateless, warmup(3);sample(3) in the stateful interface): the plain function is invoked exactly once
+per state produced by a transition, with that state and its index; every other kind receives exactly the same invocations in
+the same run on the same stream, and the chain (stateful: also state dictionary and generator position) is the same.
+
+*Representation of the tunable constructor arguments* (tunable cells): EVERY class of either interface with a scale / step-size
+argument (stateful MH, CWMH, PCN, ULA, MALA: scale, NUTS: step_size, RegularizedLinearRTO: stepsize; stateless MH, CWMH, pCN, ULA,
+MALA: scale, NUTS: adapt_step_size, RegularizedLinearRTO: stepsize) x representation in {Python float, numpy float64 scalar, 0-d
+ndarray, 1-element ndarray, per-component vector} (a representation is "accepted" when a sampler constructed from it makes the
+compared run; otherwise it is counted as refused).  The harness plays the caller: it keeps the object `a` (the argument) and
+the initial-point array it hands to the constructors of sampler A and of a second sampler B (constructed before A runs).
+Stateful: A is used {warmup(3), sample(2), warmup(2);sample(1), as a block sampler in HybridGibbs.warmup(3);sample(1)}, then
+re-initialised and run; B runs afterwards: the caller's objects hold the bytes they were created with after every stage, and the
+re-initialised A and the untouched B each make the run (chain, state dictionary, generator position) of a sampler freshly
+constructed from COPIES of the arguments on the same stream.  Stateless: A makes sample(3,1) / sample_adapt(10,2) on another
+stream, then B on the reference stream: caller's objects unchanged, B's chain == the chain of a sampler built from copies.
+
 *Burn-in / thinning product*: on the chain recorded by the longest uninterrupted run of every cell (Samples of each
 sampler of both interfaces, JointSamples of HybridGibbs, dict of Samples of legacy Gibbs) burnthin(Nb, Nt) for all
 Nb in 0..len, Nt in 1..4 (positional and keyword call) must return exactly the stored states Nb, Nb+Nt, ... in order
@@ -68,6 +87,7 @@ import os
 
 os.environ.setdefault("TQDM_DISABLE", "1")   # progress bars only; must precede the first tqdm import
 
+import functools
 import shutil
 import tempfile
 
@@ -98,6 +118,14 @@ RULE = ("stateful cells = sampler set-up x target x warm-up length k x generator
         "against sample(2,0) from x0=x; in every stateful cell (route of initial_point and call-back: constructor / assigned / "
         "re-assigned / no call-back) -> state after initialize() and after reinitialize() == the point handed over, all routes "
         "make the same run; HybridGibbs record cells: state before the first transition == block initial points handed over. "
+        "callback cells = class (both interfaces) x generator seed with the product (kind of callable: function, lambda, bound "
+        "method, partial, callable object, callable object falsy (len 0 / bool False) before its first call) x (route: "
+        "constructor / assigned) x (stateless: sample, sample_adapt) inside, oracle = list model for the plain function and "
+        "identical invocations / chain for every other kind; tunable cells = class with a scale / step-size argument (both "
+        "interfaces) x generator seed with the product (representation: float, float64, 0-d, 1-element, vector) x (use of "
+        "sampler A: warmup / sample / warmup+sample / HybridGibbs block; stateless: sample / sample_adapt) inside, the caller's "
+        "argument and initial-point objects are shared by A and a second sampler B and compared bytewise after every stage, "
+        "re-initialised A and untouched B against a sampler constructed from copies on the same stream. "
         "A cell is non-trivial when the reference chain moves (at least two distinct states) and at least one "
         "history with a crash point was compared")
 BOUND = {
@@ -120,11 +148,16 @@ BOUND = {
              "{sample: runs of 3 then 4 states, burn-in (3,2),(2,1); sample_adapt: 10 then 12, burn-in (10,2),(10,5)} + step(x) "
              "from 2 constructions, 2 distinct non-default feasible points per class, 1 generator seed; stateful cells: 4 routes "
              "of (initial_point, callback) per cell for all 12 classes (non-default point for every class); HybridGibbs: "
-             "non-default initial points for all 12 block classes (3 Conjugate blocks keep the default)",
+             "non-default initial points for all 12 block classes (3 Conjugate blocks keep the default); "
+             "callback cells: 9 stateless classes x 7 kinds x 2 routes x {sample(3,1), sample_adapt(10,2)}, 12 stateful classes x 7 "
+             "kinds x 2 routes on warmup(3);sample(3), 1 generator seed; tunable cells: 7 stateful classes x 5 representations x "
+             "4 uses (3 stand-alone + HybridGibbs block after warmup(3);sample(1)), compared run warmup(3);sample(4) (block: "
+             "warmup(2);sample(2)), 7 stateless classes x 5 representations x {sample(3,1), sample_adapt(10,2)}, value dimension "
+             "1-2, 1 generator seed",
     "thorough": "as quick with k in {0,1,2,3}, 3 generator seeds, <=5 sampling transitions (2269 histories per stateful "
                 "cell, 293 per HybridGibbs cell, +76 with one sample(0)), legacy Gibbs total <=5; block samplers "
-                "re-initialised after Gibbs runs warmup(k);sample(1|5), warmup(k+1); record cells and x0 cells with 3 generator "
-                "seeds",
+                "re-initialised after Gibbs runs warmup(k);sample(1|5), warmup(k+1); record cells, x0 cells, callback cells and tunable "
+                "cells with 3 generator seeds",
 }
 ASSUMPTIONS = [
     "the oracle is differential: the uninterrupted run of the same sampler on the same stream (the kernels themselves "
@@ -152,6 +185,14 @@ ASSUMPTIONS = [
     "cuqi.sampler.Conjugate, ConjugateApprox (step() only) and Gibbs (no x0, no call-back; its chain holds the states after "
     "each sweep, not the initial point) have no initial-point / call-back argument: only their use inside the legacy Gibbs "
     "cells is decided; sample_adapt of MH/CWMH/pCN is run with N >= 10 only (their adaptation interval is int(0.1*N))",
+    "call-back kinds: 'a callable' is read as any object with __call__(sample, index), whatever its truth value, length or "
+    "type; the recorder objects copy the state at call time; HybridGibbs and legacy Gibbs have no call-back",
+    "tunable arguments: 'the configuration it was constructed with' includes the VALUE the caller's argument object had at "
+    "construction - the harness compares the caller's objects bytewise and the behaviour with a sampler constructed from "
+    "copies; a representation the class does not run with (the run of a freshly constructed sampler raises: e.g. vector scale "
+    "for MH/PCN/MALA tuning, ndarray step_size for NUTS, 0-d scale for CWMH) is counted as refused and not judged; that "
+    "different representations of one value make the same run is NOT demanded; tunable arguments of block samplers built "
+    "by the legacy Gibbs sampler (factory keyword arguments) are not varied",
     "thinning is not an option of either sampling interface: the thinning values of the quantifier are exercised "
     "through burnthin(Nb, Nt) of the recorded chain objects (Samples / JointSamples / legacy Gibbs dict of Samples); "
     "oracle is the slice stored[Nb::Nt] of the states recorded at production time; a raise is accepted when that "
@@ -2118,6 +2159,601 @@ def eval_record_stateful(cell, res):
 
 
 # ----------------------------------------------------------------------------------------
+# the call-back alphabet: what KIND of callable the user hands over (both interfaces)
+# ----------------------------------------------------------------------------------------
+def _rec(entries, sample, index):
+    entries.append((np.array(np.asarray(sample, dtype=float), copy=True).ravel(), index))
+
+
+class _Recorder:
+    """The call-back is the bound method `record` of this object."""
+
+    def __init__(self, entries):
+        self.entries = entries
+
+    def record(self, sample, index):
+        _rec(self.entries, sample, index)
+
+
+class _CallableRecorder:
+    def __init__(self, entries):
+        self.entries = entries
+
+    def __call__(self, sample, index):
+        _rec(self.entries, sample, index)
+
+
+class _SizedRecorder(_CallableRecorder):
+    """A monitor that reports how many states it has seen: len() == 0 (truth value False) before its first call."""
+
+    def __len__(self):
+        return len(self.entries)
+
+
+class _BoolRecorder(_CallableRecorder):
+    """A monitor whose truth value says whether it has seen a state yet: False before its first call."""
+
+    def __bool__(self):
+        return len(self.entries) > 0
+
+
+CALLBACK_KINDS = ("function", "lambda", "bound-method", "partial", "object", "object-len0", "object-bool-false")
+
+
+def _make_callback(kind):
+    """-> (callable of the given kind, the list its invocations are recorded in as (copy of the state, index))"""
+    entries = []
+    if kind == "function":
+        def cb(sample, index):
+            _rec(entries, sample, index)
+    elif kind == "lambda":
+        cb = lambda sample, index: _rec(entries, sample, index)      # noqa: E731
+    elif kind == "bound-method":
+        cb = _Recorder(entries).record
+    elif kind == "partial":
+        cb = functools.partial(_rec, entries)
+    elif kind == "object":
+        cb = _CallableRecorder(entries)
+    elif kind == "object-len0":
+        cb = _SizedRecorder(entries)
+    elif kind == "object-bool-false":
+        cb = _BoolRecorder(entries)
+    else:
+        raise ValueError(kind)
+    return cb, entries
+
+
+CALLBACK_ROUTES = ("constructor", "assigned")
+CALLBACK_FACETS = ["raises", "length", "callback-count", "callback-index", "callback-state", "chain"]
+CB_LEGACY_RUNS = (("sample", 3, 1), ("sample_adapt", 10, 2))
+CB_STATEFUL_RUN = (3, 3)            # warmup(3);sample(3)
+
+
+def _log_diff(entries, ref_entries):
+    """Invocations of a call-back against those of the plain-function call-back in the same run on the same stream."""
+    if len(entries) != len(ref_entries):
+        return "callback-count", "call-back invoked %d times, the plain function was invoked %d times in the same run" % (
+            len(entries), len(ref_entries))
+    if [int(i) for _, i in entries] != [int(i) for _, i in ref_entries]:
+        return "callback-index", "call-back received the indices %s, the plain function %s" % (
+            [int(i) for _, i in entries], [int(i) for _, i in ref_entries])
+    for j, ((v, _), (w, _)) in enumerate(zip(entries, ref_entries)):
+        if not _same(v, w):
+            return "callback-state", "invocation %d handed over the state %s, the plain function received %s" % (j, v, w)
+    return None
+
+
+class _Found:
+    """First failure in (facet priority, enumeration order); the others are listed as 'also failing'."""
+
+    def __init__(self, priority):
+        self.priority = priority
+        self.items = []
+
+    def note(self, facet, label, msg, **focus):
+        base = facet.split(":")[0]
+        pr = self.priority.index(base) if base in self.priority else len(self.priority)
+        self.items.append(((pr, len(self.items)), facet, label, msg, focus))
+
+    def first(self):
+        if not self.items:
+            return None
+        _, facet, label, msg, focus = min(self.items, key=lambda t: t[0])
+        others = sorted({"%s/%s" % (f, l) for _, f, l, _, _ in self.items} - {"%s/%s" % (facet, label)})
+        return facet, label, msg + " (also failing: %s)" % (others[:8] or "nothing"), focus
+
+
+def eval_callback_stateless(cell, res):
+    """cuqi.sampler class x (sample(N,Nb), sample_adapt(N,Nb)) x kind of callable x route (constructor / assigned):
+    the plain function is invoked exactly once per state produced by a transition with the state's index; every other kind
+    of callable receives exactly the same invocations in the same run on the same stream, and the returned chain is the same."""
+    import cuqi
+    cls, cat, seed = cell["cls"], cell["cat"], cell["seed"]
+    tid, kw, v, _ = _legacy_x0_setups()[cls]
+    comp = "cuqi.sampler." + cls
+    found = _Found(CALLBACK_FACETS)
+    moved = invoked = False
+
+    def run(kind, route, method, N, Nb):
+        cb, entries = _make_callback(kind)
+        C = getattr(cuqi.sampler, cls)
+        if route == "constructor":
+            s = C(TARGETS[tid](cat), x0=v[0].copy(), callback=cb, **kw())
+        else:
+            s = C(TARGETS[tid](cat), x0=v[0].copy(), **kw())
+            s.callback = cb
+        _seed_streams(seed)
+        out = getattr(s, method)(N, Nb)
+        return _chain_of(out), entries
+
+    for method, N, Nb in CB_LEGACY_RUNS:
+        T = N + Nb
+        for route in CALLBACK_ROUTES:
+            ref = None
+            for kind in CALLBACK_KINDS:
+                res.state(("callback", method, route, kind))
+                res.count("callback-kind:%s" % kind)
+                label = "%s,%s,%s" % (kind, route, method)
+                try:
+                    chain, entries = run(kind, route, method, N, Nb)
+                except Exception as e:
+                    if kind == "function":      # the reference run itself is refused: nothing to compare on this route
+                        res.refused += 1
+                        res.outcomes.add("%s:%s:callback-reference-refused:%s" % (cls, method, type(e).__name__))
+                        break
+                    found.note("raises", label, "%s(%d, %d) with a call-back of kind '%s' (route %s) raised %s: %s; with a plain "
+                               "function it runs" % (method, N, Nb, kind, route, type(e).__name__, str(e)[:120]), kind=kind)
+                    continue
+                res.transitions += T - 1
+                res.traces += 1
+                res.evaluations += 1
+                if kind == "function":
+                    ref = (chain, entries)
+                    moved = moved or len({tuple(np.round(x, 12)) for x in chain}) > 1
+                    invoked = invoked or len(entries) > 1
+                    idx = [int(i) for _, i in entries]
+                    if len(idx) != T - 1:
+                        found.note("callback-count", label, "%s(%d, %d): call-back (plain function, route %s) invoked %d times, %d "
+                                   "states were produced by transitions" % (method, N, Nb, route, len(idx), T - 1), kind=kind)
+                        ref = None
+                        break
+                    if idx != list(range(1, T)) and idx != list(range(1 - Nb, T - Nb)):
+                        found.note("callback-index", label, "%s(%d, %d): call-back indices %s are neither the indices in the run "
+                                   "nor in the returned chain" % (method, N, Nb, idx), kind=kind)
+                        ref = None
+                        break
+                    continue
+                bad = _log_diff(entries, ref[1])
+                if bad is None and not _eq_chain(chain, ref[0]):
+                    bad = ("chain", "the returned chain differs from the chain of the same run with a plain-function call-back")
+                if bad:
+                    found.note(bad[0], label, "%s(%d, %d) with a call-back of kind '%s' given by route '%s': %s (%d states were "
+                               "produced by transitions)" % (method, N, Nb, kind, route, bad[1], T - 1), kind=kind)
+    f = found.first()
+    if f:
+        facet, label, msg, focus = f
+        res.fail("C14|%s|callback-kind|%s,callback=%s" % (comp, facet, focus.get("kind", "function")),
+                 "%s (class %s, seed %d)" % (msg, cls, seed), focus=focus)
+    res.outcomes.add("%s:callback-kinds:moved=%s" % (cls, moved))
+    if not invoked:
+        res.nontrivial = False
+
+
+def eval_callback_stateful(cell, res):
+    """cuqi.experimental.mcmc class x kind of callable x route (constructor / assigned): in warmup(3);sample(3) the plain
+    function is invoked once per transition with (state, index in the chain) and receives the recorded states; every other
+    kind of callable receives the same invocations, and chain, state dictionary and generator position are the same."""
+    setup, cat, seed = cell["setup"], cell["cat"], cell["seed"]
+    cls = _stateful_setups()[setup][0]
+    comp = "cuqi.experimental.mcmc." + cls
+    loop_comp = "cuqi.experimental.mcmc." + _defining_class(cls, "sample")
+    kw_, n_ = CB_STATEFUL_RUN
+    found = _Found(CALLBACK_FACETS)
+    moved = invoked = False
+
+    def run(kind, route):
+        cb, entries = _make_callback(kind)
+        if route == "constructor":
+            s = _make_stateful(setup, cat, cb)
+        else:
+            s = _make_stateful(setup, cat, None)
+            s.callback = cb
+        return (entries,) + _twin_run(s, seed, kw_, n_, False)
+
+    for route in CALLBACK_ROUTES:
+        ref = None
+        for kind in CALLBACK_KINDS:
+            res.state(("callback", route, kind))
+            res.count("callback-kind:%s" % kind)
+            label = "%s,%s" % (kind, route)
+            try:
+                entries, chain, state, rng = run(kind, route)
+            except Exception as e:
+                if kind == "function":
+                    res.refused += 1
+                    res.outcomes.add("%s:callback-reference-refused:%s" % (setup, type(e).__name__))
+                    break
+                found.note("raises", label, "warmup(%d);sample(%d) with a call-back of kind '%s' (route %s) raised %s: %s; with a "
+                           "plain function it runs" % (kw_, n_, kind, route, type(e).__name__, str(e)[:120]), kind=kind)
+                continue
+            res.transitions += 2
+            res.traces += 1
+            res.evaluations += 1
+            if kind == "function":
+                ref = (entries, chain, state, rng)
+                moved = moved or len({tuple(np.round(x, 12)) for x in chain}) > 1
+                invoked = invoked or len(entries) > 1
+                idx = [int(i) for _, i in entries]
+                bad = None
+                if len(chain) != kw_ + n_:
+                    bad = ("length", "recorded chain has %d entries after %d transitions" % (len(chain), kw_ + n_))
+                elif len(idx) != kw_ + n_:
+                    bad = ("callback-count", "call-back invoked %d times for %d transitions" % (len(idx), kw_ + n_))
+                elif idx != list(range(kw_ + n_)):
+                    bad = ("callback-index", "call-back indices %s, chain indices are %s" % (idx, list(range(kw_ + n_))))
+                elif not all(_same(x, y) for (x, _), y in zip(entries, chain)):
+                    bad = ("callback-state", "a state handed to the call-back is not the chain entry at its index")
+                if bad:
+                    found.note(bad[0], label, "warmup(%d);sample(%d), plain-function call-back by route %s: %s" % (kw_, n_, route, bad[1]),
+                               kind=kind)
+                    ref = None
+                    break
+                continue
+            bad = _log_diff(entries, ref[0])
+            if bad is None:
+                d = _twin_diff((chain, state, rng), ref[1:])
+                if d is not None:
+                    bad = ("chain", "%s (compared: the same run with a plain-function call-back)" % d[1])
+            if bad:
+                found.note(bad[0], label, "warmup(%d);sample(%d) with a call-back of kind '%s' given by route '%s': %s (%d transitions "
+                           "were made)" % (kw_, n_, kind, route, bad[1], kw_ + n_), kind=kind)
+    f = found.first()
+    if f:
+        facet, label, msg, focus = f
+        res.fail("C14|%s|callback-kind|%s,callback=%s" % (loop_comp if facet in LOOP_FACETS else comp, facet,
+                                                           focus.get("kind", "function")),
+                 "%s (set-up %s, seed %d)" % (msg, setup, seed), focus=focus)
+    res.outcomes.add("%s:callback-kinds:moved=%s" % (setup, moved))
+    if not invoked:
+        res.nontrivial = False
+
+
+# ----------------------------------------------------------------------------------------
+# tunable constructor arguments (scale / step size) x their representation; the caller's array objects are tracked
+# ----------------------------------------------------------------------------------------
+ARG_REPS = ("float", "float64", "0-d", "1-element", "vector")
+
+
+def _rep(rep, val, dim):
+    """The value `val` of a tunable argument in the given representation (None: not applicable)."""
+    if rep == "float":
+        return float(val)
+    if rep == "float64":
+        return np.float64(val)
+    if rep == "0-d":
+        return np.array(float(val))
+    if rep == "1-element":
+        return np.array([float(val)])
+    if rep == "vector":
+        return None if dim < 2 else float(val) * np.array([1.0, 0.5, 0.75, 0.625])[:dim]
+    raise ValueError(rep)
+
+
+def _copy_arg(a):
+    return np.array(a, copy=True) if isinstance(a, np.ndarray) else a
+
+
+def _snap(a):
+    """Comparable content of an object the caller handed over (bytes for arrays)."""
+    if isinstance(a, np.ndarray):
+        return (a.dtype.str, a.shape, a.tobytes())
+    return repr(a)
+
+
+def _twin_run(s, seed, k, n, reinit):
+    """(chain, state dictionary, generator position) of warmup(k);sample(n) of one stateful sampler object on the stream `seed`;
+    the object is re-initialised first (reinit) or used as constructed (initialised lazily by the first call)."""
+    _seed_streams(seed)
+    if reinit:
+        s.reinitialize()
+    if k:
+        s.warmup(k)
+    if n:
+        s.sample(n)
+    return (_chain_of(s.get_samples()), {key: _val(x) for key, x in s.get_state()["state"].items()}, _rng_state())
+
+
+def _twin_diff(got, want):
+    """First difference between two observations of _twin_run -> (facet, message) or None."""
+    if len(got[0]) != len(want[0]):
+        return "length", "recorded %d states, the reference %d" % (len(got[0]), len(want[0]))
+    if not _eq_chain(got[0], want[0]):
+        d = next(i for i, (x, y) in enumerate(zip(got[0], want[0])) if not _same(x, y))
+        return "chain", "state %d is %s, in the reference run %s" % (d, got[0][d], want[0][d])
+    if sorted(got[1]) != sorted(want[1]):
+        return "state-keys", "state dictionary keys %s vs %s" % (sorted(got[1]), sorted(want[1]))
+    key = next((key for key in sorted(want[1]) if not _same(got[1][key], want[1][key])), None)
+    if key is not None:
+        return "state:" + key, "state dictionary entry %r is %r, the reference has %r" % (key, got[1][key], want[1][key])
+    if got[2] != want[2]:
+        return "stream", _rng_diff(got[2], want[2])
+    return None
+
+
+def _tunable_stateful():
+    """class -> (target id, other constructor arguments, tunable argument, value, (HybridGibbs set-up, parameter) in which the
+    class is a block sampler).  Every class of cuqi.experimental.mcmc with a scale / step-size argument."""
+    return {
+        "MH": ("gauss", lambda: dict(), "scale", 0.9, ("HybridGibbs/hier_mh", "d")),
+        "CWMH": ("gauss", lambda: dict(), "scale", 0.9, ("HybridGibbs/direct", "x")),
+        "PCN": ("post", lambda: dict(), "scale", 0.15, ("HybridGibbs/hier_mh", "s")),
+        "ULA": ("gauss", lambda: dict(), "scale", 0.2, ("HybridGibbs/hier_mh-ula", "x")),
+        "MALA": ("gauss", lambda: dict(), "scale", 0.8, ("HybridGibbs/hier_mh", "x")),
+        "NUTS": ("gauss", lambda: dict(max_depth=3), "step_size", 0.1, ("HybridGibbs/hier_mh-nuts", "x")),
+        "RegularizedLinearRTO": ("reg", lambda: dict(maxit=25), "stepsize", 0.05, ("HybridGibbs/reg_hier", "x")),
+    }
+
+
+TUNABLE_USES = ("warmup", "sample", "warmup+sample", "gibbs-block")
+TUNABLE_RUN = (3, 4)            # compared run warmup(3);sample(4): tuning fires after every warm-up step
+TUNABLE_FACETS = ["caller-array-altered", "reinitialize", "second-sampler", "raises"]
+
+
+def eval_tunable_stateful(cell, res):
+    """Stateful class x representation of its tunable argument x use of sampler A.  The caller keeps the objects `a` (the
+    argument) and `ip` (the initial point) it hands to the constructors of A and of a second sampler B (built before A
+    runs).  After construction, after the use of A, after A.reinitialize() + run and after the run of B the caller's objects
+    hold the bytes they were created with; the re-initialised A and the untouched B each make the run of a sampler freshly
+    constructed from COPIES of the arguments, on the same stream (chain, state dictionary, generator position)."""
+    from cuqi.experimental import mcmc
+    cls, cat, seed = cell["cls"], cell["cat"], cell["seed"]
+    tid, kwf, arg, val, (hsetup, hpar) = _tunable_stateful()[cls]
+    comp = "cuqi.experimental.mcmc." + cls
+    C = getattr(mcmc, cls)
+    k, n = TUNABLE_RUN
+    found = _Found(TUNABLE_FACETS)
+    moved = False
+    ip0 = np.array(PROBE_IP[tid], dtype=float)
+    dim = ip0.size
+
+    def snaps(objs, pristine, where, label, rep, use):
+        for name, obj in objs.items():
+            if _snap(obj) != pristine[name]:
+                found.note("caller-array-altered", label, "the caller's object handed over as %s (created as %s) holds %r %s"
+                           % (name, _describe(pristine[name]), obj, where), rep=rep, use=use)
+                return False
+        return True
+
+    for rep in ARG_REPS:
+        # ---------------- stand-alone uses
+        a0 = _rep(rep, val, dim)
+        if a0 is None:
+            continue
+        res.count("tunable-rep:%s" % rep)
+        try:
+            want = _twin_run(C(TARGETS[tid](cat), initial_point=ip0.copy(), **{arg: _copy_arg(a0)}, **kwf()), seed, k, n, False)
+        except Exception as e:          # this representation is not accepted by the class
+            res.refused += 1
+            res.outcomes.add("%s:%s=%s:refused:%s" % (cls, arg, rep, type(e).__name__))
+            want = None
+        if want is not None:
+            res.transitions += 2
+            moved = moved or len({tuple(np.round(x, 12)) for x in want[0]}) > 1
+            res.outcomes.add("%s:%s=%s:accepted" % (cls, arg, rep))
+        for use in TUNABLE_USES[:3]:
+            if want is None:
+                break
+            label = "%s,%s" % (rep, use)
+            res.state(("tunable", arg, rep, use))
+            objs = {arg: _copy_arg(a0), "initial_point": ip0.copy()}
+            pristine = {name: _snap(o) for name, o in objs.items()}
+            try:
+                A = C(TARGETS[tid](cat), initial_point=objs["initial_point"], **{arg: objs[arg]}, **kwf())
+                B = C(TARGETS[tid](cat), initial_point=objs["initial_point"], **{arg: objs[arg]}, **kwf())
+                ok = snaps(objs, pristine, "after the construction of two samplers", label, rep, use)
+                _seed_streams(seed + 1)
+                if use == "warmup":
+                    A.warmup(3)
+                elif use == "sample":
+                    A.sample(2)
+                else:
+                    A.warmup(2)
+                    A.sample(1)
+                res.transitions += 2
+                ok = ok and snaps(objs, pristine, "after %s of sampler A" % use, label, rep, use)
+                got = _twin_run(A, seed, k, n, True)
+                res.transitions += 3
+                res.traces += 1
+                res.evaluations += 2
+                d = _twin_diff(got, want)
+                if d:
+                    found.note("reinitialize:" + d[0], label, "sampler A constructed with %s = %r (%s), used by %s and re-initialised "
+                               "does not make the run warmup(%d);sample(%d) of a sampler freshly constructed from a copy of the "
+                               "arguments: %s" % (arg, a0, rep, use, k, n, d[1]), rep=rep, use=use)
+                ok = ok and snaps(objs, pristine, "after %s; reinitialize(); warmup(%d); sample(%d) of sampler A" % (use, k, n),
+                                  label, rep, use)
+                gotB = _twin_run(B, seed, k, n, False)
+                res.transitions += 2
+                res.traces += 1
+                res.evaluations += 2
+                d = _twin_diff(gotB, want)
+                if d:
+                    found.note("second-sampler:" + d[0], label, "sampler B, constructed from the same objects (%s = %r, %s) as A "
+                               "before A was used (%s), does not make the run warmup(%d);sample(%d) of a sampler constructed from a "
+                               "copy of the arguments: %s" % (arg, a0, rep, use, k, n, d[1]), rep=rep, use=use)
+                if ok:
+                    snaps(objs, pristine, "after the run of sampler B", label, rep, use)
+            except Exception as e:
+                found.note("raises", label, "%s = %r (%s), use %s: %s: %s; a sampler constructed from a copy of the arguments makes "
+                           "warmup(%d);sample(%d)" % (arg, a0, rep, use, type(e).__name__, str(e)[:140], k, n), rep=rep, use=use)
+        # ---------------- use as a block sampler of HybridGibbs (the block samplers remain the caller's objects)
+        use = "gibbs-block"
+        label = "%s,%s" % (rep, use)
+        spec, steps = _hybrid_spec(hsetup)
+        bkw = dict(spec[hpar][1])
+        hval = bkw.pop(arg, val)
+        hip = np.atleast_1d(np.asarray(bkw.pop("initial_point"), dtype=float)).copy()
+        b0 = _rep(rep, hval, hip.size)
+        if b0 is None:
+            continue
+        res.state(("tunable", arg, rep, use))
+
+        def block(a_, ip_):
+            return C(initial_point=ip_, **{arg: a_}, **bkw)
+
+        objs = {arg: _copy_arg(b0), "initial_point": hip.copy()}
+        pristine = {name: _snap(o) for name, o in objs.items()}
+        try:                # reference: the Gibbs run with a block constructed from copies, and that block's conditional target
+            strategy, _ = _hybrid_strategy(hsetup)
+            strategy[hpar] = block(_copy_arg(b0), hip.copy())
+            g = _make_hybrid(hsetup, cat, strategy)
+            _seed_streams(seed + 1)
+            g.warmup(3)
+            g.sample(1)
+            twin = block(_copy_arg(b0), hip.copy())
+            twin.target = strategy[hpar].target
+            wantb = _twin_run(twin, seed, BLOCK_RUN[0], BLOCK_RUN[1], False)
+        except Exception as e:
+            res.refused += 1
+            res.outcomes.add("%s:%s=%s:gibbs-block-refused:%s" % (cls, arg, rep, type(e).__name__))
+            continue
+        res.transitions += 4
+        res.outcomes.add("%s:%s=%s:gibbs-block-accepted" % (cls, arg, rep))
+        try:
+            strategy, _ = _hybrid_strategy(hsetup)
+            A = strategy[hpar] = block(objs[arg], objs["initial_point"])
+            B = block(objs[arg], objs["initial_point"])
+            g = _make_hybrid(hsetup, cat, strategy)
+            _seed_streams(seed + 1)
+            g.warmup(3)
+            g.sample(1)
+            res.transitions += 2
+            ok = snaps(objs, pristine, "after HybridGibbs.warmup(3);sample(1) with sampler A as the block of %r" % hpar, label, rep, use)
+            got = _twin_run(A, seed, BLOCK_RUN[0], BLOCK_RUN[1], True)
+            res.traces += 1
+            res.evaluations += 2
+            d = _twin_diff(got, wantb)
+            if d:
+                found.note("reinitialize:" + d[0], label, "sampler A constructed with %s = %r (%s), used as the block of %r in "
+                           "HybridGibbs.warmup(3);sample(1) (set-up %s) and re-initialised does not make the run of a sampler "
+                           "freshly constructed from a copy of the arguments on the same conditional target: %s"
+                           % (arg, b0, rep, hpar, hsetup, d[1]), rep=rep, use=use)
+            B.target = A.target
+            gotB = _twin_run(B, seed, BLOCK_RUN[0], BLOCK_RUN[1], False)
+            res.traces += 1
+            res.evaluations += 2
+            d = _twin_diff(gotB, wantb)
+            if d:
+                found.note("second-sampler:" + d[0], label, "sampler B, constructed from the same objects (%s = %r, %s) as the Gibbs "
+                           "block A before the Gibbs run (set-up %s), does not make the run of a sampler constructed from a copy of "
+                           "the arguments: %s" % (arg, b0, rep, hsetup, d[1]), rep=rep, use=use)
+            if ok:
+                snaps(objs, pristine, "after the stand-alone runs of the re-initialised block A and of B", label, rep, use)
+        except Exception as e:
+            found.note("raises", label, "%s = %r (%s), use as Gibbs block (set-up %s): %s: %s; the same with a block constructed "
+                       "from a copy of the arguments runs" % (arg, b0, rep, hsetup, type(e).__name__, str(e)[:140]), rep=rep, use=use)
+    f = found.first()
+    if f:
+        facet, label, msg, focus = f
+        res.fail("C14|%s|tunable-argument|%s,arg=%s" % (comp, facet, arg), "%s (class %s, seed %d)" % (msg, cls, seed), focus=focus)
+    if not moved:
+        res.nontrivial = False
+
+
+def _describe(snap):
+    if isinstance(snap, tuple):
+        return "%s%s %s" % (snap[0], snap[1], np.frombuffer(snap[2], dtype=np.dtype(snap[0])).reshape(snap[1]))
+    return snap
+
+
+def _tunable_legacy():
+    """class -> (target id, other constructor arguments, tunable argument, value, initial point).  Every class of cuqi.sampler
+    with a scale / step-size argument."""
+    return {
+        "MH": ("gauss", lambda: dict(), "scale", 0.9, _U2[0]),
+        "CWMH": ("gauss", lambda: dict(), "scale", 0.9, _U2[0]),
+        "pCN": ("post", lambda: dict(), "scale", 0.3, _U2[0]),
+        "ULA": ("gauss", lambda: dict(), "scale", 0.2, _U2[0]),
+        "MALA": ("gauss", lambda: dict(), "scale", 0.8, _U2[0]),
+        "NUTS": ("gauss", lambda: dict(max_depth=3), "adapt_step_size", 0.35, _U2[0]),
+        "RegularizedLinearRTO": ("reg", lambda: dict(maxit=25), "stepsize", 0.05, _P2[0]),
+    }
+
+
+def eval_tunable_stateless(cell, res):
+    """Stateless class x representation of its tunable argument x (sample, sample_adapt).  The caller hands the objects `a`
+    (the argument) and `x0` to the constructors of sampler A and of a second sampler B; after construction, after A's run
+    (on another stream) and after B's run the objects hold the bytes they were created with, and B's run is the run of a
+    sampler constructed from copies of the arguments, on the same stream."""
+    import cuqi
+    cls, cat, seed = cell["cls"], cell["cat"], cell["seed"]
+    tid, kwf, arg, val, x0 = _tunable_legacy()[cls]
+    comp = "cuqi.sampler." + cls
+    C = getattr(cuqi.sampler, cls)
+    found = _Found(TUNABLE_FACETS)
+    moved = False
+
+    def go(s, sd, method, N, Nb):
+        _seed_streams(sd)
+        return _chain_of(getattr(s, method)(N, Nb))
+
+    for rep in ARG_REPS:
+        a0 = _rep(rep, val, x0.size)
+        if a0 is None:
+            continue
+        res.count("tunable-rep:%s" % rep)
+        for method, N, Nb in CB_LEGACY_RUNS:
+            label = "%s,%s" % (rep, method)
+            res.state(("tunable", arg, rep, method))
+            try:
+                want = go(C(TARGETS[tid](cat), x0=x0.copy(), **{arg: _copy_arg(a0)}, **kwf()), seed, method, N, Nb)
+            except Exception as e:
+                res.refused += 1
+                res.outcomes.add("%s:%s=%s:%s:refused:%s" % (cls, arg, rep, method, type(e).__name__))
+                continue
+            res.transitions += N + Nb - 1
+            res.outcomes.add("%s:%s=%s:%s:accepted" % (cls, arg, rep, method))
+            moved = moved or len({tuple(np.round(x, 12)) for x in want}) > 1
+            objs = {arg: _copy_arg(a0), "x0": x0.copy()}
+            pristine = {name: _snap(o) for name, o in objs.items()}
+
+            def snaps(where):
+                for name, obj in objs.items():
+                    if _snap(obj) != pristine[name]:
+                        found.note("caller-array-altered", label, "the caller's object handed over as %s (created as %s) holds %r %s"
+                                   % (name, _describe(pristine[name]), obj, where), rep=rep, method=method)
+                        return False
+                return True
+
+            try:
+                A = C(TARGETS[tid](cat), x0=objs["x0"], **{arg: objs[arg]}, **kwf())
+                B = C(TARGETS[tid](cat), x0=objs["x0"], **{arg: objs[arg]}, **kwf())
+                ok = snaps("after the construction of two samplers")
+                go(A, seed + 1, method, N, Nb)
+                res.transitions += N + Nb - 1
+                ok = ok and snaps("after %s(%d, %d) of sampler A" % (method, N, Nb))
+                got = go(B, seed, method, N, Nb)
+                res.transitions += N + Nb - 1
+                res.traces += 1
+                res.evaluations += 2
+                if len(got) != len(want) or not _eq_chain(got, want):
+                    found.note("second-sampler:chain", label, "sampler B, constructed from the same objects (%s = %r, %s) as A before A "
+                               "made %s(%d, %d), does not return the chain of a sampler constructed from a copy of the arguments on "
+                               "the same stream" % (arg, a0, rep, method, N, Nb), rep=rep, method=method)
+                if ok:
+                    snaps("after %s(%d, %d) of sampler B" % (method, N, Nb))
+            except Exception as e:
+                found.note("raises", label, "%s = %r (%s), %s(%d, %d): %s: %s; a sampler constructed from a copy of the arguments runs"
+                           % (arg, a0, rep, method, N, Nb, type(e).__name__, str(e)[:140]), rep=rep, method=method)
+    f = found.first()
+    if f:
+        facet, label, msg, focus = f
+        res.fail("C14|%s|tunable-argument|%s,arg=%s" % (comp, facet, arg), "%s (class %s, seed %d)" % (msg, cls, seed), focus=focus)
+    if not moved:
+        res.nontrivial = False
+
+
+# ----------------------------------------------------------------------------------------
 # cells
 # ----------------------------------------------------------------------------------------
 SEEDS = [11, 23, 37]
@@ -2161,6 +2797,20 @@ def cells(tier, seed):
     for setup in _stateful_setups():
         for sd in seeds:
             out.append({"iface": "record-stateful", "setup": setup, "seed": sd + int(seed), "cat": cat})
+    # the kind of callable handed over as call-back (one set-up per class of either interface)
+    first = {}
+    for setup, (cls, _, _) in _stateful_setups().items():
+        first.setdefault(cls, setup)
+    for sd in seeds:
+        for cls in _legacy_x0_setups():
+            out.append({"iface": "callback-stateless", "cls": cls, "seed": sd + int(seed), "cat": cat})
+        for cls, setup in first.items():
+            out.append({"iface": "callback-stateful", "setup": setup, "seed": sd + int(seed), "cat": cat})
+        # representation of the tunable constructor arguments; the caller's array objects are tracked
+        for cls in _tunable_stateful():
+            out.append({"iface": "tunable-stateful", "cls": cls, "seed": sd + int(seed), "cat": cat})
+        for cls in _tunable_legacy():
+            out.append({"iface": "tunable-stateless", "cls": cls, "seed": sd + int(seed), "cat": cat})
     return out
 
 
@@ -2168,5 +2818,7 @@ def eval_cell(cell):
     res = CellResult(cell)
     {"stateful": eval_stateful, "hybridgibbs": eval_hybrid, "stateless": eval_legacy, "stateless-x0": eval_legacy_x0,
      "gibbs": eval_gibbs,
-     "record-hybridgibbs": eval_record_hybrid, "record-stateful": eval_record_stateful}[cell["iface"]](cell, res)
+     "record-hybridgibbs": eval_record_hybrid, "record-stateful": eval_record_stateful,
+     "callback-stateless": eval_callback_stateless, "callback-stateful": eval_callback_stateful,
+     "tunable-stateful": eval_tunable_stateful, "tunable-stateless": eval_tunable_stateless}[cell["iface"]](cell, res)
     return res
